@@ -1,5 +1,195 @@
-import Knee.Model.EvenPoints
-import Knee.Model.Pipeline
+import Knee.Lemmas.Pipeline
+/-!
+# C08 — every stage of the post-detection pipeline is well formed
+
+Model: `Knee.pipelineTail` / `Knee.pipelineTailHull` (`Knee/Model/Pipeline.lean`): knees of the
+REDUCED curve → `worstFilter` → `cornerFilter` → `clusterFilter` (or the hull-ranking variant
+`clusterFilterHull`) → `mapping` back to original indices.
+`h k` = height of reduced point `k`; `iou`, `labelsOf`, `score`, `herr` are Layer-S oracles (any
+functions); the only contract used is that the linkage assigns one label per knee (`hl`).
+Hypotheses throughout: `reduced` strictly increasing and starting at `0`, the removed table is
+`computeRemoved reduced` (C01/C07), the detected knees are strictly increasing positions of the
+reduced curve.
+-/
 namespace Knee
-theorem stub_C08 : True := trivial
+
+section
+variable (h : Nat → Rat) (iou : Nat → Rat) (tc : Rat) (labelsOf : List Nat → List Nat)
+  (score : List Nat → List Rat) (hull : List Nat) (herr : List Nat → Nat → Rat)
+  (reduced knees : List Nat)
+
+/-! ### left / linear / right ranking -/
+
+/-- **C08 (all stages).** Every filter stage returns a subsequence of its input; from the
+worst-knee filter onwards the heights are non-increasing from left to right; the mapped output is
+the list of retained simplification points at the surviving reduced-space positions (so the
+coordinates coincide), it is strictly increasing, every entry is a retained point, and no knee is
+lost or duplicated by the mapping. -/
+theorem pipeline_wf
+    (hred : reduced.Pairwise (· < ·)) (h0 : reduced[0]? = some 0)
+    (hk : knees.Pairwise (· < ·)) (hkb : ∀ k ∈ knees, k < reduced.length)
+    (hl : ∀ ks, (labelsOf ks).length = ks.length) :
+    let S := pipelineTail h reduced.length iou tc labelsOf score reduced (computeRemoved reduced) knees
+    (S.worst.Sublist knees ∧ S.corner.Sublist S.worst ∧ S.cluster.Sublist S.corner) ∧
+    (S.worst.Pairwise (fun a b => h b ≤ h a) ∧ S.corner.Pairwise (fun a b => h b ≤ h a) ∧
+      S.cluster.Pairwise (fun a b => h b ≤ h a)) ∧
+    S.mapped = S.cluster.map (fun k => reduced[k]?.getD 0) ∧ S.mapped.Pairwise (· < ·) ∧
+    (∀ x ∈ S.mapped, x ∈ reduced) ∧ S.mapped.length = S.cluster.length :=
+  tail_generic h reduced.length iou tc (fun c => clusterFilter score (labelsOf c) c)
+    (fun c => clusterFilter_sublist score (labelsOf c) c (hl c)) reduced knees hred h0 hk hkb
+
+/-- **C08.1** Every filter stage returns a subsequence of its input. -/
+theorem pipeline_stages_sublist
+    (hred : reduced.Pairwise (· < ·)) (h0 : reduced[0]? = some 0)
+    (hk : knees.Pairwise (· < ·)) (hkb : ∀ k ∈ knees, k < reduced.length)
+    (hl : ∀ ks, (labelsOf ks).length = ks.length) :
+    let S := pipelineTail h reduced.length iou tc labelsOf score reduced (computeRemoved reduced) knees
+    S.worst.Sublist knees ∧ S.corner.Sublist S.worst ∧ S.cluster.Sublist S.corner :=
+  (pipeline_wf h iou tc labelsOf score reduced knees hred h0 hk hkb hl).1
+
+/-- **C08.2** From the worst-knee filter onwards heights are non-increasing from left to right. -/
+theorem pipeline_heights
+    (hred : reduced.Pairwise (· < ·)) (h0 : reduced[0]? = some 0)
+    (hk : knees.Pairwise (· < ·)) (hkb : ∀ k ∈ knees, k < reduced.length)
+    (hl : ∀ ks, (labelsOf ks).length = ks.length) :
+    let S := pipelineTail h reduced.length iou tc labelsOf score reduced (computeRemoved reduced) knees
+    S.worst.Pairwise (fun a b => h b ≤ h a) ∧ S.corner.Pairwise (fun a b => h b ≤ h a) ∧
+      S.cluster.Pairwise (fun a b => h b ≤ h a) :=
+  (pipeline_wf h iou tc labelsOf score reduced knees hred h0 hk hkb hl).2.1
+
+/-- **C08.3a** Each output index is the retained simplification point at the reduced-space
+knee's position: original and reduced coordinates of a reported knee coincide. -/
+theorem pipeline_mapped
+    (hred : reduced.Pairwise (· < ·)) (h0 : reduced[0]? = some 0)
+    (hk : knees.Pairwise (· < ·)) (hkb : ∀ k ∈ knees, k < reduced.length)
+    (hl : ∀ ks, (labelsOf ks).length = ks.length) :
+    let S := pipelineTail h reduced.length iou tc labelsOf score reduced (computeRemoved reduced) knees
+    S.mapped = S.cluster.map (fun k => reduced[k]?.getD 0) :=
+  (pipeline_wf h iou tc labelsOf score reduced knees hred h0 hk hkb hl).2.2.1
+
+/-- **C08.3b** The reported original indices are strictly increasing (sorted, duplicate-free). -/
+theorem pipeline_mapped_strict
+    (hred : reduced.Pairwise (· < ·)) (h0 : reduced[0]? = some 0)
+    (hk : knees.Pairwise (· < ·)) (hkb : ∀ k ∈ knees, k < reduced.length)
+    (hl : ∀ ks, (labelsOf ks).length = ks.length) :
+    let S := pipelineTail h reduced.length iou tc labelsOf score reduced (computeRemoved reduced) knees
+    S.mapped.Pairwise (· < ·) :=
+  (pipeline_wf h iou tc labelsOf score reduced knees hred h0 hk hkb hl).2.2.2.1
+
+/-- **C08.3c** Every reported original index is a point retained by the simplifier. -/
+theorem pipeline_mapped_subset
+    (hred : reduced.Pairwise (· < ·)) (h0 : reduced[0]? = some 0)
+    (hk : knees.Pairwise (· < ·)) (hkb : ∀ k ∈ knees, k < reduced.length)
+    (hl : ∀ ks, (labelsOf ks).length = ks.length) :
+    let S := pipelineTail h reduced.length iou tc labelsOf score reduced (computeRemoved reduced) knees
+    ∀ x ∈ S.mapped, x ∈ reduced :=
+  (pipeline_wf h iou tc labelsOf score reduced knees hred h0 hk hkb hl).2.2.2.2.1
+
+/-- **C08.3d** The mapping neither loses nor invents knees. -/
+theorem pipeline_mapped_length
+    (hred : reduced.Pairwise (· < ·)) (h0 : reduced[0]? = some 0)
+    (hk : knees.Pairwise (· < ·)) (hkb : ∀ k ∈ knees, k < reduced.length)
+    (hl : ∀ ks, (labelsOf ks).length = ks.length) :
+    let S := pipelineTail h reduced.length iou tc labelsOf score reduced (computeRemoved reduced) knees
+    S.mapped.length = S.cluster.length :=
+  (pipeline_wf h iou tc labelsOf score reduced knees hred h0 hk hkb hl).2.2.2.2.2
+
+/-! ### hull ranking (the demos' default) -/
+
+/-- **C08 (all stages, hull variant).** Same statement for `pipelineTailHull`. -/
+theorem pipeline_hull_wf
+    (hred : reduced.Pairwise (· < ·)) (h0 : reduced[0]? = some 0)
+    (hk : knees.Pairwise (· < ·)) (hkb : ∀ k ∈ knees, k < reduced.length)
+    (hl : ∀ ks, (labelsOf ks).length = ks.length) :
+    let S := pipelineTailHull h reduced.length iou tc labelsOf hull herr reduced (computeRemoved reduced) knees
+    (S.worst.Sublist knees ∧ S.corner.Sublist S.worst ∧ S.cluster.Sublist S.corner) ∧
+    (S.worst.Pairwise (fun a b => h b ≤ h a) ∧ S.corner.Pairwise (fun a b => h b ≤ h a) ∧
+      S.cluster.Pairwise (fun a b => h b ≤ h a)) ∧
+    S.mapped = S.cluster.map (fun k => reduced[k]?.getD 0) ∧ S.mapped.Pairwise (· < ·) ∧
+    (∀ x ∈ S.mapped, x ∈ reduced) ∧ S.mapped.length = S.cluster.length :=
+  tail_generic h reduced.length iou tc (fun c => clusterFilterHull hull herr (labelsOf c) c)
+    (fun c => clusterFilterHull_sublist hull herr (labelsOf c) c (hl c)) reduced knees hred h0 hk hkb
+
+/-- **C08.1 (hull)** Every filter stage returns a subsequence of its input. -/
+theorem pipeline_hull_stages_sublist
+    (hred : reduced.Pairwise (· < ·)) (h0 : reduced[0]? = some 0)
+    (hk : knees.Pairwise (· < ·)) (hkb : ∀ k ∈ knees, k < reduced.length)
+    (hl : ∀ ks, (labelsOf ks).length = ks.length) :
+    let S := pipelineTailHull h reduced.length iou tc labelsOf hull herr reduced (computeRemoved reduced) knees
+    S.worst.Sublist knees ∧ S.corner.Sublist S.worst ∧ S.cluster.Sublist S.corner :=
+  (pipeline_hull_wf h iou tc labelsOf hull herr reduced knees hred h0 hk hkb hl).1
+
+/-- **C08.2 (hull)** Heights are non-increasing from the worst-knee filter onwards. -/
+theorem pipeline_hull_heights
+    (hred : reduced.Pairwise (· < ·)) (h0 : reduced[0]? = some 0)
+    (hk : knees.Pairwise (· < ·)) (hkb : ∀ k ∈ knees, k < reduced.length)
+    (hl : ∀ ks, (labelsOf ks).length = ks.length) :
+    let S := pipelineTailHull h reduced.length iou tc labelsOf hull herr reduced (computeRemoved reduced) knees
+    S.worst.Pairwise (fun a b => h b ≤ h a) ∧ S.corner.Pairwise (fun a b => h b ≤ h a) ∧
+      S.cluster.Pairwise (fun a b => h b ≤ h a) :=
+  (pipeline_hull_wf h iou tc labelsOf hull herr reduced knees hred h0 hk hkb hl).2.1
+
+/-- **C08.3a (hull)** Output indices are the retained points at the surviving positions. -/
+theorem pipeline_hull_mapped
+    (hred : reduced.Pairwise (· < ·)) (h0 : reduced[0]? = some 0)
+    (hk : knees.Pairwise (· < ·)) (hkb : ∀ k ∈ knees, k < reduced.length)
+    (hl : ∀ ks, (labelsOf ks).length = ks.length) :
+    let S := pipelineTailHull h reduced.length iou tc labelsOf hull herr reduced (computeRemoved reduced) knees
+    S.mapped = S.cluster.map (fun k => reduced[k]?.getD 0) :=
+  (pipeline_hull_wf h iou tc labelsOf hull herr reduced knees hred h0 hk hkb hl).2.2.1
+
+/-- **C08.3b (hull)** The reported original indices are strictly increasing. -/
+theorem pipeline_hull_mapped_strict
+    (hred : reduced.Pairwise (· < ·)) (h0 : reduced[0]? = some 0)
+    (hk : knees.Pairwise (· < ·)) (hkb : ∀ k ∈ knees, k < reduced.length)
+    (hl : ∀ ks, (labelsOf ks).length = ks.length) :
+    let S := pipelineTailHull h reduced.length iou tc labelsOf hull herr reduced (computeRemoved reduced) knees
+    S.mapped.Pairwise (· < ·) :=
+  (pipeline_hull_wf h iou tc labelsOf hull herr reduced knees hred h0 hk hkb hl).2.2.2.1
+
+/-- **C08.3c (hull)** Every reported original index is a point retained by the simplifier. -/
+theorem pipeline_hull_mapped_subset
+    (hred : reduced.Pairwise (· < ·)) (h0 : reduced[0]? = some 0)
+    (hk : knees.Pairwise (· < ·)) (hkb : ∀ k ∈ knees, k < reduced.length)
+    (hl : ∀ ks, (labelsOf ks).length = ks.length) :
+    let S := pipelineTailHull h reduced.length iou tc labelsOf hull herr reduced (computeRemoved reduced) knees
+    ∀ x ∈ S.mapped, x ∈ reduced :=
+  (pipeline_hull_wf h iou tc labelsOf hull herr reduced knees hred h0 hk hkb hl).2.2.2.2.1
+
+/-- **C08.3d (hull)** The mapping neither loses nor invents knees. -/
+theorem pipeline_hull_mapped_length
+    (hred : reduced.Pairwise (· < ·)) (h0 : reduced[0]? = some 0)
+    (hk : knees.Pairwise (· < ·)) (hkb : ∀ k ∈ knees, k < reduced.length)
+    (hl : ∀ ks, (labelsOf ks).length = ks.length) :
+    let S := pipelineTailHull h reduced.length iou tc labelsOf hull herr reduced (computeRemoved reduced) knees
+    S.mapped.length = S.cluster.length :=
+  (pipeline_hull_wf h iou tc labelsOf hull herr reduced knees hred h0 hk hkb hl).2.2.2.2.2
+
+end
+
+/-! Non-vacuity: both tails evaluated on a concrete reduction with 8 retained points (heights
+`9,7,8,6,5,4,3,1`).  Knee 2 (height 8 > 7) is dropped by the worst filter, knee 3 (IoU 3/4 ≥ 2/5)
+by the corner filter; the clusters are `[1]`, `[5, 6]`; score = position picks 6, the hull ranking
+(hull points 1 and 5) picks 5; the survivors map to `reduced[1] = 2`, `reduced[6] = 12` /
+`reduced[5] = 9`.  The hypotheses of the theorems hold on this data. -/
+deriving instance DecidableEq for Stages
+example : pipelineTail (fun k => ([9, 7, 8, 6, 5, 4, 3, 1] : List Rat)[k]?.getD 0) 8
+    (fun k => ([0, 0, 0, 3/4, 0, 1/10, 0, 0] : List Rat)[k]?.getD 0) (2/5)
+    (fun ks => ks.map fun k => if k < 4 then 0 else 1) (fun c => c.map fun k => ((k : Int) : Rat))
+    [0, 2, 3, 5, 8, 9, 12, 15] (computeRemoved [0, 2, 3, 5, 8, 9, 12, 15]) [1, 2, 3, 5, 6]
+    = { worst := [1, 3, 5, 6], corner := [1, 5, 6], cluster := [1, 6], mapped := [2, 12] } := by
+  decide +kernel
+example : pipelineTailHull (fun k => ([9, 7, 8, 6, 5, 4, 3, 1] : List Rat)[k]?.getD 0) 8
+    (fun k => ([0, 0, 0, 3/4, 0, 1/10, 0, 0] : List Rat)[k]?.getD 0) (2/5)
+    (fun ks => ks.map fun k => if k < 4 then 0 else 1) [1, 5] (fun _ j => ((j : Int) : Rat))
+    [0, 2, 3, 5, 8, 9, 12, 15] (computeRemoved [0, 2, 3, 5, 8, 9, 12, 15]) [1, 2, 3, 5, 6]
+    = { worst := [1, 3, 5, 6], corner := [1, 5, 6], cluster := [1, 5], mapped := [2, 9] } := by
+  decide +kernel
+example : ([0, 2, 3, 5, 8, 9, 12, 15] : List Nat).Pairwise (· < ·)
+    ∧ ([0, 2, 3, 5, 8, 9, 12, 15] : List Nat)[0]? = some 0
+    ∧ ([1, 2, 3, 5, 6] : List Nat).Pairwise (· < ·)
+    ∧ (∀ k ∈ [1, 2, 3, 5, 6], k < [0, 2, 3, 5, 8, 9, 12, 15].length) := by decide
+example : ∀ ks : List Nat, (ks.map fun k => if k < 4 then 0 else 1).length = ks.length := by
+  intro ks; simp
+
 end Knee
